@@ -319,6 +319,13 @@ def rand_template(rng, doc, depth, call_depth):
                     items.append(rng.choice([1, "s", None, True, "a.$x", ".$ "]))
                 elif q < 0.55:
                     items.append(rng.choice(["$.n.$", "$.zz.$", "States.MathAdd(1, 2).$", "x.$", "$.$", ".$"]))
+                elif q < 0.72:
+                    # an array directly inside an array (no object between them): templates below it are walked too
+                    inner = []
+                    for _ in range(rng.randint(0, 2)):
+                        inner.append(rand_template(rng, doc, depth - 1, call_depth) if rng.random() < 0.7 else
+                                     rng.choice([2, "t", None, [rand_template(rng, doc, 0, call_depth)], []]))
+                    items.append(inner)
                 else:
                     items.append(rand_template(rng, doc, depth - 1, call_depth))
             t[k] = items
